@@ -388,7 +388,7 @@ impl<'borrow, B: Backend> HipByt<'borrow, B> {
             }
         };
 
-        debug_assert!(self.is_normalized());
+        debug_assert!(result.is_normalized());
         result
     }
 
@@ -440,7 +440,7 @@ impl<'borrow, B: Backend> HipByt<'borrow, B> {
             }
         };
 
-        debug_assert!(self.is_normalized());
+        debug_assert!(result.is_normalized());
         result
     }
 
